@@ -127,11 +127,14 @@ def step (st : WSt) (ws : List String) : Option (WSt × String) :=
           | "delsub", t :: u :: _ => some (c0.opDelSub a t u)
           | "deltopic", t :: _ => some (c0.opDelTopic a t (kvGet m "hard" = "1"))
           | "fg", _ => some (c0.opFg sid)
+          | "drop", _ => some (c0.opDrop sid)
           | _, _ => none
       match c with
       | none => none
       | some c =>
         let c := c.deliverRouted
+        -- the order in which the topics learn about a dropped connection is not defined: frames are compared sorted
+        let c := if op = "drop" then { c with frames := c.frames.mergeSort (fun a b => s!"{a.1}<-{a.2}" ≤ s!"{b.1}<-{b.2}") } else c
         let stOut := { st with w := c.w }
         let line := render stOut c
         -- the crash snapshot, if one was taken during this op, is what an immediately following `restart` restores
